@@ -334,7 +334,7 @@ def comment_token_language(rep: C.Report) -> None:
         for label, lhs, rhs in (("a deletable span that is not a closed comment", shortest, A), ("a closed comment that is not deleted as a whole", A, shortest)):
             sol = z3.Solver()
             sol.set("timeout", 60000)
-            sol.add(z3.InRe(x, lhs), z3.Not(z3.InRe(x, rhs)))
+            sol.add(z3.InRe(x, lhs), z3.Not(z3.InRe(x, rhs)), z3.InRe(x, R.NOMARK))
             r = str(sol.check())
             ob.queries += 1
             ob.paths += 1
